@@ -83,6 +83,7 @@ pub fn run_step(engine: &mut Engine, cap: &mut OutCapture, step: &Value) -> Valu
     match op {
         "run" => {
             let r = catch_unwind(AssertUnwindSafe(|| engine.run(code)));
+            crate::intr::note_returned();
             let out = cap.take();
             match r {
                 Ok(r) => enc_result(r, out),
@@ -119,6 +120,23 @@ pub fn run_step(engine: &mut Engine, cap: &mut OutCapture, step: &Value) -> Valu
                 Ok(()) => json!({"s":"ok","v":[],"out":""}),
                 Err(e) => json!({"s":"err","k":"io","m":e.to_string(),"out":""}),
             }
+        }
+        "int_plan" => {
+            crate::intr::set_controller(engine.get_thread_state_controller());
+            let k = step.get("k").and_then(|p| p.as_u64()).unwrap_or(0) as usize;
+            let mask = step.get("mask").and_then(|p| p.as_u64()).unwrap_or(u64::MAX);
+            let timed = step.get("timed_ms").and_then(|p| p.as_u64()).unwrap_or(0);
+            crate::intr::plan(k, mask, timed);
+            crate::util::child_mark("777001");
+            json!({"s":"ok","v":[],"out":""})
+        }
+        "int_report" => {
+            let r = crate::intr::report();
+            json!({"s":"ok","v":[r],"out":""})
+        }
+        "int_resume" => {
+            crate::intr::resume();
+            json!({"s":"ok","v":[],"out":""})
         }
         "threads" => json!({"s":"ok","v":[thread_count()],"out":""}),
         _ => json!({"s":"badop"}),
